@@ -109,7 +109,8 @@ func (x *xEnv) finish(keys ...string) {
 	f := reflect.ValueOf(x.e).Elem().FieldByName("work")
 	if vrt.RaceBuild {
 		// peeking at the map without its lock is itself a data race: not in the race tier
-		for i := 0; i < 50; i++ {
+		// (a few yields let Start-style work finish; more would trip the spin detector)
+		for i := 0; i < 10; i++ {
 			vrt.Yield()
 		}
 	} else if f.IsValid() && f.Kind() == reflect.Map {
@@ -119,7 +120,7 @@ func (x *xEnv) finish(keys ...string) {
 		vrt.Log("map-empty", f.Len())
 	} else {
 		vrt.Log("map-unknown")
-		for i := 0; i < 50; i++ {
+		for i := 0; i < 10; i++ {
 			vrt.Yield()
 		}
 	}
